@@ -9,71 +9,58 @@ From AC Require Import Base.Strs Base.Json Model.Names Gql.Coerce Model.Args Mod
 Import ListNotations.
 Local Open Scope string_scope.
 
-(* ---- the full statement: every call with schema-valid arguments delivers the caller's values.
-        The parameter of each variable is given by the generator's naming (process_name, then "_" appended until
-        the name is free of self / kwargs / gql / UNSET / serialize functions / earlier parameters). ---- *)
-Definition C03_delivery_full : Prop :=
-  forall ser S snake extra vs kwargs n g, ser_wf ser ->
-    generate S (naming S snake extra vs) vs = Some g -> NoDup (map v_name vs) ->
+(* ---- END TO END.  For every schema, every VALID operation variable list (distinct GraphQL names, accepted by the
+        generator), every typed call and every well-behaved serialize function: the call sends a payload that
+        coerce_vars accepts and that yields exactly the caller's values.  The parameter of each variable is given by the
+        generator's naming (process_name, an underscore back if that is no identifier, then "_" appended until the name
+        is free of self / kwargs / gql / UNSET / serialize functions / the result class / earlier parameters).
+        No defect-class guard is left: g_f10, g_f21, the parameter-name conditions and names_ok went away with
+        /repo d163d56, 1ef155d/0db841f, a558946/7f3b78b, e1c98d1, 6bef770, 70630f0.  inputs_ok is a SCOPE condition of
+        the model (input types whose fields mangle to distinct Python names; since /repo bec4417 the real code also
+        handles colliding fields - suffix loop - which the model does not represent: K3 only). ---- *)
+Definition valid_var_names (vs : list vardef) : bool := forallb (fun v => gql_name (s2l (v_name v))) vs.
+
+Theorem C03_sent_coerces_to_intended : forall ser, ser_wf ser -> forall S snake,
+  inputs_ok S snake = true ->
+  forall extra vs kwargs n g, generate S (naming S snake extra vs) vs = Some g ->
+    NoDup (map v_name vs) -> valid_var_names vs = true ->
     typed_call n S snake (naming S snake extra vs) vs kwargs = true ->
     exists sent cs, (forall m, n <= m -> call_method ser m S snake (naming S snake extra vs) vs kwargs = Sent sent) /\
                     coerce_vars n S vs sent = Some cs /\
                     intended_vars ser n S snake (naming S snake extra vs) vs kwargs = Some cs.
-
-(* ---- END TO END, proved.  Hypotheses besides validity of the operation (distinct variable names, accepted by the
-        generator) and typed arguments: names_ok = every mangled variable name is an identifier and no keyword
-        (process_name breaks _1 -> 1, C18) and the serialize FUNCTIONS are not themselves called like a method
-        local / comprehension variable / UNSET; inputs_ok = F18 (colliding input field names).
-        The guards g_f10, g_f21 and the parameter-name clash conditions (self, kwargs, gql, UNSET, collisions,
-        query+_query) went away with /repo d163d56, 1ef155d/0db841f, a558946/7f3b78b. ---- *)
-Theorem C03_sent_coerces_to_intended : forall ser, ser_wf ser -> forall S snake,
-  inputs_ok S snake = true ->
-  forall extra vs kwargs n g, generate S (naming S snake extra vs) vs = Some g -> names_ok S snake vs = true ->
-    NoDup (map v_name vs) -> typed_call n S snake (naming S snake extra vs) vs kwargs = true ->
-    exists sent cs, (forall m, n <= m -> call_method ser m S snake (naming S snake extra vs) vs kwargs = Sent sent) /\
-                    coerce_vars n S vs sent = Some cs /\
-                    intended_vars ser n S snake (naming S snake extra vs) vs kwargs = Some cs.
 Proof.
-  intros ser Hser S snake Hin extra vs kwargs n g Hg Hn Hd Ht.
-  exact (call_delivery ser Hser S snake Hin (naming S snake extra vs) vs kwargs n g Hg (naming_wf S snake extra vs Hd Hn) Hd Ht).
+  intros ser Hser S snake Hin extra vs kwargs n g Hg Hd Hv Ht.
+  exact (call_delivery ser Hser S snake Hin (naming S snake extra vs) vs kwargs n g Hg (naming_wf S snake extra vs Hd Hv) Hd Ht).
 Qed.
 Print Assumptions C03_sent_coerces_to_intended.
 
 Theorem C03_omitted_absent_call : forall ser, ser_wf ser -> forall S snake,
   inputs_ok S snake = true ->
-  forall extra vs kwargs n g, generate S (naming S snake extra vs) vs = Some g -> names_ok S snake vs = true ->
-    NoDup (map v_name vs) -> typed_call n S snake (naming S snake extra vs) vs kwargs = true ->
+  forall extra vs kwargs n g, generate S (naming S snake extra vs) vs = Some g ->
+    NoDup (map v_name vs) -> valid_var_names vs = true ->
+    typed_call n S snake (naming S snake extra vs) vs kwargs = true ->
     forall v, In v vs -> assoc (naming S snake extra vs (v_name v)) kwargs = None ->
     exists sent, (forall m, n <= m -> call_method ser m S snake (naming S snake extra vs) vs kwargs = Sent sent) /\
                  jlookup (v_name v) sent = None.
 Proof.
-  intros ser Hser S snake Hin extra vs kwargs n g Hg Hn Hd Ht.
-  exact (call_omitted_absent ser Hser S snake Hin (naming S snake extra vs) vs kwargs n g Hg (naming_wf S snake extra vs Hd Hn) Hd Ht).
+  intros ser Hser S snake Hin extra vs kwargs n g Hg Hd Hv Ht.
+  exact (call_omitted_absent ser Hser S snake Hin (naming S snake extra vs) vs kwargs n g Hg (naming_wf S snake extra vs Hd Hv) Hd Ht).
 Qed.
 Print Assumptions C03_omitted_absent_call.
 
 Theorem C03_none_is_null_call : forall ser, ser_wf ser -> forall S snake,
   inputs_ok S snake = true ->
-  forall extra vs kwargs n g, generate S (naming S snake extra vs) vs = Some g -> names_ok S snake vs = true ->
-    NoDup (map v_name vs) -> typed_call n S snake (naming S snake extra vs) vs kwargs = true ->
+  forall extra vs kwargs n g, generate S (naming S snake extra vs) vs = Some g ->
+    NoDup (map v_name vs) -> valid_var_names vs = true ->
+    typed_call n S snake (naming S snake extra vs) vs kwargs = true ->
     forall v, In v vs -> assoc (naming S snake extra vs (v_name v)) kwargs = Some PNone ->
     exists sent, (forall m, n <= m -> call_method ser m S snake (naming S snake extra vs) vs kwargs = Sent sent) /\
                  jlookup (v_name v) sent = Some JNull.
 Proof.
-  intros ser Hser S snake Hin extra vs kwargs n g Hg Hn Hd Ht.
-  exact (call_none_is_null ser Hser S snake Hin (naming S snake extra vs) vs kwargs n g Hg (naming_wf S snake extra vs Hd Hn) Hd Ht).
+  intros ser Hser S snake Hin extra vs kwargs n g Hg Hd Hv Ht.
+  exact (call_none_is_null ser Hser S snake Hin (naming S snake extra vs) vs kwargs n g Hg (naming_wf S snake extra vs Hd Hv) Hd Ht).
 Qed.
 Print Assumptions C03_none_is_null_call.
-
-(* ---- subscriptions: the generated method hands the same variables dict to execute_ws / _send_subscribe, which
-        converts it with the same _convert_dict_to_json_serializable; so every theorem about call_method
-        (delivery, omitted => absent, None => null, unset input fields absent) holds for the subscribe payload.
-        By construction of the model; what ties it to the code is K1/K3 on subscription methods (fake
-        graphql-transport-ws connection). ---- *)
-Theorem C03_ws_same_variables_as_http : forall ser n S snake nm vs kwargs,
-  call_subscribe ser n S snake nm vs kwargs = call_method ser n S snake nm vs kwargs.
-Proof. exact ws_same_variables_as_http. Qed.
-Print Assumptions C03_ws_same_variables_as_http.
 
 (* ---- the renaming: injective on distinct variables, never a reserved name, valid identifiers ---- *)
 Theorem C03_naming_injective_and_free : forall S snake extra vs, NoDup (map v_name vs) ->
@@ -88,7 +75,7 @@ Qed.
 Print Assumptions C03_naming_injective_and_free.
 
 Theorem C03_naming_wf : forall S snake extra vs,
-  NoDup (map v_name vs) -> names_ok S snake vs = true -> names_wf S (naming S snake extra vs) vs = true.
+  NoDup (map v_name vs) -> valid_var_names vs = true -> names_wf S (naming S snake extra vs) vs = true.
 Proof. exact naming_wf. Qed.
 Print Assumptions C03_naming_wf.
 
@@ -153,7 +140,7 @@ Proof. exact arg_delivery. Qed.
 Print Assumptions C03_arg_delivery.
 
 (* the generated dict expression computes the per-occurrence serialisation, value and call log *)
-Theorem C03_serialize_expression : forall ser f, (forall d, String.eqb f (item_name d) = false) ->
+Theorem C03_serialize_expression : forall ser f,
   forall t env x nl depth v,
     assoc x env = Some v -> assoc f env = None -> assoc "UNSET" env = None ->
     eval_se ser env (gen_se t x f nl depth) = ser_arg ser f t nl (Nat.eqb depth 0) v.
@@ -221,47 +208,21 @@ Example C03_f32_regression :
   callm [] false [V "Op" (TNamed "Int")] [("Op_", PInt 1)] = Sent [("Op", JInt 1)].
 Proof. vm_compute. reflexivity. Qed.
 
-(* what still breaks (own small classes): a name that process_name turns into a non-identifier ... *)
-Theorem C03_names_refuted_not_identifier :
-  callm [] true [V "_1" (TNamed "Int")] [("1", PInt 1)] = PySyntaxError /\
-  names_ok [] true [V "_1" (TNamed "Int")] = false.
-Proof. vm_compute. split; reflexivity. Qed.
-
-(* ... and a serialize FUNCTION that is itself called like the method's local `query` *)
+(* F18-variable-name-not-identifier (fixed by /repo 70630f0) and F33 (fixed by /repo 6bef770): the former refutation
+   witnesses, kept as regression cases - $_1 keeps its underscore, a serialize function called query or _item0 works *)
 Definition cfgQ : scalar_cfg :=
   {| sc_type := "Any"; sc_ser := Some "mod.query"; sc_parse := None; sc_import := None |}.
-Theorem C03_names_refuted_serialize_named_query :
-  callm [("DT", DCustom (Some cfgQ))] true [V "d" (TNonNull (TNamed "DT"))] [("d", PCustom (JStr "a"))] = PyNotCallable /\
-  names_ok [("DT", DCustom (Some cfgQ))] true [V "d" (TNonNull (TNamed "DT"))] = false.
-Proof. vm_compute. split; reflexivity. Qed.
-
-(* the other two conjuncts of ser_name_ok are needed as well: a serialize function called like a comprehension
-   variable, or called UNSET *)
 Definition cfgI : scalar_cfg :=
   {| sc_type := "Any"; sc_ser := Some "mod._item0"; sc_parse := None; sc_import := None |}.
-Theorem C03_names_refuted_serialize_named_item :
-  callm [("DT", DCustom (Some cfgI))] true [V "d" (TList (TNamed "DT"))] [("d", PList [PCustom (JStr "a")])] = PyNotCallable /\
-  names_ok [("DT", DCustom (Some cfgI))] true [V "d" (TList (TNamed "DT"))] = false.
-Proof. vm_compute. split; reflexivity. Qed.
-
-(* ... but only where a comprehension is generated: for a non-list variable the same configuration works, so the
-   guard is wider than the defect there (kept: it is a property of the configuration, not of the operation) *)
-Example C03_serialize_named_item_nonlist_works :
-  callm [("DT", DCustom (Some cfgI))] true [V "d" (TNonNull (TNamed "DT"))] [("d", PCustom (JStr "a"))]
-    = Sent [("d", JArr [JStr "_item0"; JStr "a"])].
-Proof. vm_compute. reflexivity. Qed.
-
-(* so the full statement without names_ok is still false: *)
-Theorem C03_delivery_refuted_names : ~ C03_delivery_full.
-Proof.
-  intro H.
-  destruct (H ser_inst [] true [] [V "_1" (TNamed "Int")] [("1", PInt 1)] 8 _ ser_inst_wf eq_refl)
-    as [sent [cs [H1 _]]].
-  - repeat constructor. intros [].
-  - reflexivity.
-  - specialize (H1 8 (le_n 8)). vm_compute in H1. discriminate.
-Qed.
-Print Assumptions C03_delivery_refuted_names.
+Example C03_f18_f33_regression :
+  callm [] true [V "_1" (TNamed "Int")] [("_1", PInt 1)] = Sent [("_1", JInt 1)] /\
+  callm [("DT", DCustom (Some cfgQ))] true [V "d" (TNonNull (TNamed "DT"))] [("d", PCustom (JStr "a"))]
+    = Sent [("d", JArr [JStr "query"; JStr "a"])] /\
+  callm [("DT", DCustom (Some cfgI))] true [V "d" (TList (TNamed "DT"))] [("d", PList [PCustom (JStr "a")])]
+    = Sent [("d", JArr [JArr [JStr "_item0"; JStr "a"]])] /\
+  dictval_str (gen_se (TList (TNamed "DT")) "d" "_item0" true 0) =
+    "d if d is None or d is UNSET else [_item0_ if _item0_ is None else _item0(_item0_) for _item0_ in d]".
+Proof. vm_compute. repeat split. Qed.
 
 (* F21 (fixed for input fields by /repo 1ef155d: [Int]! with a None item is now accepted by the class;
    the method SIGNATURE still drops the Optional of the items (a type hint, no runtime effect) *)
